@@ -77,6 +77,8 @@ pub open spec fn newer(a: NodeIdentifier, b: NodeIdentifier) -> bool { newer_v(a
             r is Ok ==> (newer(*new, existing) ==> final(result)@.len() == old(result)@.len() + 1 && final(result)@.last().id == new.id
                             && final(result)@.last().old_mdate == node.mdate && final(result)@.last().old_room_id == node.room_id
                             && final(result)@.last().old_verifying_key == Some(node.verifying_key)),
+            // [stored_version_date_travels_with_the_request]{C03,C11} the modification date of the STORED version goes along with the request: it is the lower bound of the references that are fetched with the row (a deleted reference stays out because its deletion re-dated the source row) and the day whose log is recomputed
+            r is Ok && newer(*new, existing) ==> final(result)@.len() > 0 && final(result)@.last().old_mdate == node.mdate,
             // [stored_entity_travels_with_the_request]{C02} the entity of the stored version goes along with the request: a stored row is replaced only by a version of the same entity (unit u2b_ingest decides it on this field)
             r is Ok && newer(*new, existing) ==> final(result)@.len() > 0 && final(result)@.last().old_entity == Some(node._entity),
             r is Ok ==> (!newer(*new, existing) ==> final(result)@ == old(result)@),
